@@ -1,13 +1,17 @@
 pub mod c01;
+pub mod c03;
+pub mod c04;
 
 use crate::engine::Env;
 
-pub const ALL: [&str; 1] = ["C01"];
+pub const ALL: [&str; 3] = ["C01", "C03", "C04"];
 
 /// run (or, with env.register_only, just register) every sub-check of a property
 pub fn run(id: &str, env: &mut Env) -> bool {
     match id {
         "C01" => c01::run(env),
+        "C03" => c03::run(env),
+        "C04" => c04::run(env),
         _ => return false,
     }
     true
@@ -17,6 +21,8 @@ pub fn run(id: &str, env: &mut Env) -> bool {
 pub fn rule(id: &str) -> String {
     match id {
         "C01" => "Day numbers: complete enumeration of windows (quick) or of all 2^32 days (thorough), each compared with an independent civil-calendar model (closed form + successor stepping), plus seeded boundary-dense random days through the full per-case oracle; triples: the full 14x33 (month,day) product for boundary-dense years (quick) or for every year in -5879612..=5879612 (thorough), plus random triples. Non-trivial day: BC, or within 2 days of a year end, in the Feb 27..Mar 2 zone, at the era boundary or a range end. Non-trivial triple: valid and BC / end of February / year edge / range end, or invalid by exactly one step (day 0, day = len+1, month 0/13, year 0, just outside the range).",
+        "C03" => "Timestamps: every second within +-3000 s of both range ends, of 0 and of 0001-01-01, hourly steps over +-400 days around the range ends, and seeded boundary-dense i64 values (in range: round trip and fields against the i128 time line; out of range: must panic). Pairs: first instant boundary-dense over the whole range, second at a boundary-dense delta (0, 1 ns, 1 s -+ 1 ns, 1 day -+ 1 ns, < one unit, across day 0, far), each side with an independent offset; ==, <, cmp, partial_cmp and the sign of all nine *_since compared with the i128 instants; Date and Time order likewise. Non-trivial: negative non-day-aligned timestamp, timestamp within a day of a range end (inside or outside), i64 extremes; pair with different offsets within a day, pair straddling 0001-01-01, equal instants, sub-second apart.",
+        "C04" => "Cases (receiver instant boundary-dense over the whole range minus 2 days, offset, operation): the 14 add_/sub_ unit methods on DateTime and add_days/sub_days on Date with u32 counts (0, small, 2^31-1, 2^31, 2^32-1, the thresholds where count x unit crosses 2^63/2^64 ns, log-uniform, uniform), DateTime +/- Duration (0 .. u64::MAX s), DateTime +/- Time, Date +/- Duration and the *Assign forms; one case in four places the receiver so that the target lands within +-2 days (or +-2 ns) of a range end. Oracle: i128 time line; representable => exact instant and unchanged offset, else any panic. Non-trivial: BC receiver, crosses a day boundary or day 0, count >= 2^31, amount >= 2^63 ns, target within a day of a range end.",
         _ => "",
     }
     .to_string()
